@@ -89,37 +89,65 @@ def increment (stored delta : Bytes) : Option Bytes :=
     let m : Int := 2 ^ (8 * w)
     some (leBytes (((leVal stored : Int) + signedLe delta) % m).toNat w)
 
+/-- outcome of `iwkv_puth` -/
+inductive PutRes where
+  | nodb | emptyKey | readonly
+  | keyErr (e : KeyErr)
+  | exists_ | cannotinc
+  | rejected (old : Option Bytes)     -- the put handler refused; `old` = previous value, if any
+  | ok (old : Option Bytes)
+deriving Repr
+
+def PutRes.isOk : PutRes → Bool
+  | .ok _ => true
+  | _ => false
+
 /-- `iwkv_puth`. `ph`: 0 none, 1 accepting handler, 2 rejecting handler. -/
-def put (s : Store) (id : Nat) (key : Bytes) (comp : Nat) (val : Bytes) (opflags : Nat) (lvl : Nat) (ph : Nat) : Store × String :=
+def putR (s : Store) (id : Nat) (key : Bytes) (comp : Nat) (val : Bytes) (opflags : Nat) (lvl : Nat) (ph : Nat) : Store × PutRes :=
   match getDb s id with
-  | none => (s, "put invalid_args")
+  | none => (s, .nodb)
   | some d =>
-    if key.isEmpty then (s, "put invalid_args" ++ (if ph ≠ 0 then " ph=notcalled" else ""))
-    else if s.readonly then (s, "put readonly" ++ (if ph ≠ 0 then " ph=notcalled" else ""))
+    if key.isEmpty then (s, .emptyKey)
+    else if s.readonly then (s, .readonly)
     else
     let inc := hasFlag opflags Gen.IWKV_VAL_INCREMENT
     let noOver := hasFlag opflags Gen.IWKV_NO_OVERWRITE && !inc
     match toEffective d.flags key comp with
-    | .error e => (s, s!"put {keyErrName e}" ++ (if ph ≠ 0 then " ph=notcalled" else ""))
+    | .error e => (s, .keyErr e)
     | .ok ek =>
       let gt := gtE d.flags
       let old := Kv.get gt d.db ek
       match old with
       | some ov =>
-        if noOver then (s, "put exists" ++ (if ph ≠ 0 then " ph=notcalled" else ""))
+        if noOver then (s, .exists_)
         else
           match (if inc then increment ov val else some val) with
-          | none => (s, "put cannotinc" ++ (if ph ≠ 0 then " ph=notcalled" else ""))
+          | none => (s, .cannotinc)
           | some nv =>
-            if ph = 2 then (s, s!"put fail ph=old:{pval ov}")
-            else
-              let (db', _, _) := Kv.put gt d.db ek nv false lvl
-              (setDb s id { d with db := db' }, "put ok" ++ (if ph = 1 then s!" ph=old:{pval ov}" else ""))
+            if ph = 2 then (s, .rejected (some ov))
+            else (setDb s id { d with db := (Kv.put gt d.db ek nv false lvl).1 }, .ok (some ov))
       | none =>
-        if ph = 2 then (s, "put fail ph=new")
-        else
-          let (db', _, _) := Kv.put gt d.db ek val false lvl
-          (setDb s id { d with db := db' }, "put ok" ++ (if ph = 1 then " ph=new" else ""))
+        if ph = 2 then (s, .rejected none)
+        else (setDb s id { d with db := (Kv.put gt d.db ek val false lvl).1 }, .ok none)
+
+def phNotCalled (ph : Nat) : String := if ph ≠ 0 then " ph=notcalled" else ""
+
+/-- the canonical result line of a put (same text as the harness prints) -/
+def putLine (ph : Nat) : PutRes → String
+  | .nodb => "put invalid_args"
+  | .emptyKey => "put invalid_args" ++ phNotCalled ph
+  | .readonly => "put readonly" ++ phNotCalled ph
+  | .keyErr e => s!"put {keyErrName e}" ++ phNotCalled ph
+  | .exists_ => "put exists" ++ phNotCalled ph
+  | .cannotinc => "put cannotinc" ++ phNotCalled ph
+  | .rejected (some ov) => s!"put fail ph=old:{pval ov}"
+  | .rejected none => "put fail ph=new"
+  | .ok (some ov) => "put ok" ++ (if ph = 1 then s!" ph=old:{pval ov}" else "")
+  | .ok none => "put ok" ++ (if ph = 1 then " ph=new" else "")
+
+def put (s : Store) (id : Nat) (key : Bytes) (comp : Nat) (val : Bytes) (opflags : Nat) (lvl : Nat) (ph : Nat) : Store × String :=
+  let r := putR s id key comp val opflags lvl ph
+  (r.1, putLine ph r.2)
 
 def get (s : Store) (id : Nat) (key : Bytes) (comp : Nat) : String :=
   match getDb s id with
